@@ -355,7 +355,13 @@ impl Engine {
             best_mv = best_mv_at;
             best_score = score;
             self.max_depth = depth;
-            depth += 1;
+
+            // cheap passes (no legal move at the root, or every line cut short by a draw)
+            // can use up the whole depth range long before the deadline
+            let Some(next_depth) = depth.checked_add(1) else {
+                break;
+            };
+            depth = next_depth;
 
             match score {
                 Score::BlackMateIn(_) | Score::WhiteMateIn(_) => break,
